@@ -31,7 +31,7 @@ RULE = ("cases: (n, flag vector) pairs; executions: for each, the well-formed li
         "malformed-but-at-least-3-columns or well-formed with n>=1")
 ASSUMPTIONS = ["numeric tokens are drawn from a finite alphabet + seed-derived values; names have no spaces",
                "tokens such as '1.0' or '1_0' in a flag column are not generated (their status as integers is not specified)"]
-REQUIRED_CLASSES = ['eof', 'rejected-count', 'rejected-flag', 'ok', 'reinterpreted-as-other-n', 'n=0', 'n=12',
+REQUIRED_CLASSES = ['looked-at-between-parsing-and-formatting', 'eof', 'rejected-count', 'rejected-flag', 'ok', 'reinterpreted-as-other-n', 'n=0', 'n=12',
                     'roundtrip-ascii', 'roundtrip-pickle', 'roundtrip-dict', 'name-40', 'tabs', 'negative-and-placeholder', 'earlier-sources-rechecked', 'name-with-hash', 'edited-in-place-then-formatted-again']
 
 FLAGS = (0, 1, 2, 3, 4, 9)
@@ -194,6 +194,22 @@ def _roundtrips(rec, s, sub):
         rec.cls('edited-in-place-then-formatted-again')
         if not ok:
             rec.violation('to_ascii|stale-after-in-place-edit', sub, {'problem': 'to_ascii after an in-place change of a flag and a value does not show the change'})
+    # looking at a source (its log-flux transform, its printed form) between parsing and formatting changes nothing
+    if s.n_wav:
+        before = canon(s)
+        line0 = s.to_ascii()
+        try:
+            with np.errstate(all='ignore'):
+                s.get_log_fluxes()
+                str(s)
+                s.get_log_fluxes()
+            ok = (canon(s) == before and s.to_ascii() == line0)
+        except Exception as e:
+            ok = True          # (whether such a source can be transformed at all is not this property's business)
+        rec.ev()
+        rec.cls('looked-at-between-parsing-and-formatting')
+        if not ok:
+            rec.violation('to_ascii|changed-by-looking', sub, {'problem': 'after get_log_fluxes() / str() the source formats differently', 'before': line0, 'after': s.to_ascii()})
     c0 = canon(s)
     for nm, f in (('pickle', lambda z: pickle.loads(pickle.dumps(z, 2))), ('dict', lambda z: Source.from_dict(z.to_dict()))):
         try:
